@@ -117,11 +117,12 @@ CHECKS = {
     "C13": {
         "test": "TestC13", "level": "exploration", "engine": "component",
         "technique": "property-based round-trip testing of table.Writer/Reader with cursor-model walks and single-byte alteration (rapid)",
-        "quick": {"shards": 16, "n": 250, "timeout": 600},
+        "quick": {"shards": 16, "n": 500, "timeout": 600},
         "thorough": {"shards": 16, "n": 22000, "timeout": 3400},
         "floor": {"quick": 200, "thorough": 10000},
         "shrink": False,
         "rule": "rapid draws sorted key/value sets (0..2000 entries; hostile keys, long shared prefixes, 0xff runs, empty values, values larger than a block), block size 1..4096, restart interval 1..64, compression, bloom bits and filter base, block cache and buffer pool on/off, the comparer (bytewise and contract-conforming custom ones, raw and through the real internal comparer with several versions per user key); then Get/Find/FindKey (filtered and not) of stored keys and of probes between/outside them, OffsetOf monotonicity, range-restricted iterators with drawn walks compared move by move with a cursor model plus full forward/backward passes; then one altered byte at a drawn offset before the footer: every stored key is returned with its own value or a non-not-found error, a scan yields original pairs in order and reports an error if any pair is missing. "
+                "A third of the cases open the table with reader options that differ from the writer's in block size, restart interval, compression, bloom bits per key and filter base (a table describes itself: the answers must not change). "
                 "Non-trivial: >=2 data blocks, a range with both bounds strictly inside, and a walk with a direction reversal.",
         "level_text": "Exploration of the table format's observable contract over generated layouts; damage oracle in its strict form (never not-found for a stored key).",
         "level_note": "Trusted: cursor model. The footer is not checksummed and is not altered. The empty table is generated for user comparers only (the internal comparer cannot produce one in the DB).",
@@ -176,7 +177,7 @@ CHECKS = {
         "floor": {"quick": 1000, "thorough": 30000},
         "shrink": False,
         "replay_runs": 50,
-        "rule": "rapid draws programs of 1-3 phases x 2-12 goroutines x 20-1500 ops over cache.NewCache(cache.NewLRU(cap)) and NewCache(nil): Get (handle held for a drawn number of later ops), bulk fills that push the hash map through growth and shrinkage, Delete with callback, Evict, EvictNS, EvictAll, SetCapacity, repeated Release of stale handles, final Close(force or not), GOMAXPROCS drawn. Instrumented values check: a handle never carries a finalised value; a value is never finalised while a handle the harness holds is outstanding (except after Close(force)); a constructor never runs while another value of the same key has outstanding handles; every value is finalised exactly once by the end; every deletion callback runs exactly once and not while handles of the value it was aimed at are outstanding; at barriers with all handles released the retained charge is <= capacity and Size()/Nodes() match the instrumentation. "
+        "rule": "rapid draws programs of 1-3 phases x 2-12 goroutines x 20-1500 ops over cache.NewCache(cache.NewLRU(cap)) and NewCache(nil): Get (handle held for a drawn number of later ops), bulk fills that push the hash map through growth and shrinkage, Delete with callback, Evict, EvictNS, EvictAll, SetCapacity, repeated Release of stale handles, final Close(force or not), GOMAXPROCS drawn. Instrumented values check: a handle never carries a finalised value; a value is never finalised while a handle the harness holds is outstanding (except after Close(force)); a constructor never runs while another value of the same key has outstanding handles; every value is finalised exactly once by the end; every deletion callback runs exactly once and not while handles of the value it was aimed at are outstanding; at barriers with all handles released the retained charge is <= capacity, Size()/Nodes() match the instrumentation and every deletion callback registered so far has run (a deleted entry is not kept by the replacement policy). "
                 "Non-trivial: overlapping handles on the same key and a Delete issued while a handle was outstanding.",
         "level_text": "Exploration with sampled interleavings; the oracle is complete for the stated rules on each observed execution.",
         "level_note": "Interleavings are sampled, not enumerated (race detector in thorough).",
@@ -288,7 +289,7 @@ RULE_ADD = {
     "C01": "Keys and values are handed over as slices of larger buffers (spare capacity filled with other bytes) that must be intact after the call; Batch objects are fresh, reused with Reset, pre-sized with MakeBatch or Loaded from another batch's Dump, and Len/Replay are compared with what was recorded.",
     "C04": "Two thirds of the cases use tail-mode set 1, which adds cuts at 4 KiB page and 32 KiB journal-block boundaries followed by zeros up to the old length; one case in six has the long-journal shape (write buffer 128 KiB-1 MiB, 3-33 KB values, batches of up to 8 x 4 KiB) so that journal records straddle block boundaries, and one in eight the long-manifest shape (1 KiB keys, 512-byte write buffer) so that manifest records do; every other writer of a burst uses DB.Write with a two-record batch.",
     "C11": "In the fault variant every other failed Commit (and failed Transaction.Put) is retried, twice at most, before the transaction is discarded.",
-    "C08": "A trfail shape: a transaction with tables of its own whose Commit meets manifest create/write/sync failures lasting through all its attempts and through the following Discard, then ordinary use. Every other failed Transaction.Commit / Transaction.Put is retried (twice at most) instead of discarding at once. Iterators positioned with Seek (landing pair admissible, no certainly-existing key between the probe and the landing point unless an error is reported) and whole-DB iterator scans in both directions also run while faults are armed (every yielded pair admissible for its key, strictly ordered, no certainly-existing key skipped unless the iterator reports an error); a readfault shape arms one or two table open/read failures under such scans over a multi-level tree with cold caches.",
+    "C08": "A trrace shape (5% of the cases): every table write takes 40-250 us, rounds of buffer-filling puts leave table compactions running in the background, a transaction opened meanwhile flushes tables of its own (two table builders alive at once), one table write/sync fails (a compaction output or the transaction's table is dropped and the work retried), the transaction is committed or discarded and more rounds, a CompactRange, reads of every key and a reopen follow. A trfail shape: a transaction with tables of its own whose Commit meets manifest create/write/sync failures lasting through all its attempts and through the following Discard, then ordinary use. Every other failed Transaction.Commit / Transaction.Put is retried (twice at most) instead of discarding at once. Iterators positioned with Seek (landing pair admissible, no certainly-existing key between the probe and the landing point unless an error is reported) and whole-DB iterator scans in both directions also run while faults are armed (every yielded pair admissible for its key, strictly ordered, no certainly-existing key skipped unless the iterator reports an error); a readfault shape arms one or two table open/read failures under such scans over a multi-level tree with cold caches.",
     "C05": "CompactRange is a client operation too (no effect on the model). Has and snapshot Get are point reads of the model too; every other snapshot / iterator scan walks backwards (Last/Prev) and must yield the same cut.",
     "C10": "An observer goroutine takes snapshots throughout the run: the members of a write group (known from the trace) that wrote a key must all be visible in a snapshot or none of them. The caller's Batch must be byte-identical after DB.Write returns (a foreign record merged into it would be written again with it).",
     "C06": "Histories also contain recover (settle, Close, leveldb.Recover: every table re-registered in level 0 in file-number order), chain-forming churn (2-3 puts per buffer over 5-7 adjacent keys: transitive level-0 overlaps), sizeof, and in 30% of the cases a storage that delays table removal by 300 us.",
